@@ -86,6 +86,11 @@ class SymGen(object):
     def axis(self, name, size=None, min_size=0):
         if name in self.axes:
             return self.axes[name]
+        if size is None and CTX.unroll:
+            ax = Axis(name, max(CTX.unroll, min_size))
+            self.axes[name] = ax
+            self.decls.append(("axis", name, {"size": max(CTX.unroll, min_size)}))
+            return ax
         ax = Axis(name, size)
         if size is None and min_size:
             CTX.facts.append(ax.size.v >= min_size)
@@ -149,6 +154,8 @@ class ConcGen(object):
 
     def num(self, name, kinds=(FIN,), integer=False, numpy=True):
         v = self.values["num:" + name]
+        if v == "masked":
+            return _np.ma.masked
         if integer:
             return _np.int64(v) if numpy else int(v)
         return _np.float64(v) if numpy else float(v)
@@ -220,6 +227,15 @@ class SymSpec(object):
     def abs(self, x): return abs(x)
     def to_num(self, b): return b.num() if isinstance(b, SBool) else SNum.lift(b)
 
+    def ln_rules(self, x, y):
+        """sound instances of ln(x*y) = ln x + ln y and ln(x/y) = ln x - ln y for positive finite x, y
+        (the solver does not know them: ln is uninterpreted)"""
+        x, y = SNum.lift(x), SNum.lift(y)
+        lx, ly = sym.num_log(x), sym.num_log(y)
+        lp, lq = sym.num_log(x * y), sym.num_log(x / y)
+        pos = z3.And(bz(x.isfin()), bz(y.isfin()), x.rv() > 0, y.rv() > 0)
+        CTX.facts.append(z3.Implies(pos, z3.And(lp.rv() == lx.rv() + ly.rv(), lq.rv() == lx.rv() - ly.rv())))
+
     # arrays
     def at(self, a, i):
         if isinstance(a, SArr):
@@ -235,12 +251,12 @@ class SymSpec(object):
         i = arr.generic("q")
         self.idx_tuples.append((arr.axes, i))
         b = body(i)
-        return SBool(bz(Implies(arr.sel_at(i), self.z(b))))
+        return SBool(z3.Implies(sym.rng(i), bz(Implies(arr.sel_at(i), self.z(b)))))
 
     def forall_axes(self, axes, body):
         i = tuple(ax.fresh_index("q") for ax in axes)
         self.idx_tuples.append((tuple(axes), i))
-        return SBool(bz(self.z(body(i))))
+        return SBool(z3.Implies(sym.rng(i), bz(self.z(body(i)))))
 
     def same_domain(self, a, b):
         """a and b select the same points of the same index domain"""
@@ -248,7 +264,7 @@ class SymSpec(object):
             return SBool(False)
         i = a.generic("q")
         self.idx_tuples.append((a.axes, i))
-        return SBool(bz(a.sel_at(i)) == bz(b.sel_at(i)))
+        return SBool(z3.Implies(sym.rng(i), bz(a.sel_at(i)) == bz(b.sel_at(i))))
 
     def filtered(self, arr, cond):
         """arr restricted to the positions where the boolean array cond holds"""
@@ -280,10 +296,61 @@ class SymSpec(object):
         k = loops[0][0]
         return [(SNum(FIN, k, is_int=True, is_numpy=False), lst[0])]
 
-    def sum_identity(self, lhs, rhs, arrs):
-        """R1+R2: Sigma lhs_k == Sigma rhs_k proved from the pointwise identity of the summands.
-        lhs / rhs: lists of functions idx -> z3 term; arrs: the common domain"""
-        raise NotImplementedError
+    def count_where(self, arr, pred):
+        """number of (selected) index points of arr's domain where pred(i) holds"""
+        return sym.count_atom(arr.axes, lambda idx: And(arr.sel_at(idx), self.z(pred(idx))))
+
+    def sum_where(self, arr, term):
+        """Sigma over the selected index points of arr of term(i) (an SNum that must be finite there)"""
+        def t(idx):
+            e = SNum.lift(term(idx))
+            return Ite(bz(And(arr.sel_at(idx), e.isfin())), e.rv(), z3.RealVal(0))
+        return SNum(FIN, sym.sum_atom(arr.axes, t))
+
+    def lin_zero(self, terms):
+        """R1 + R2: Sigma_k coef_k * atom_k == 0, proved from the pointwise identity of the summands"""
+        if CTX.unroll:
+            tot = z3.RealVal(0)
+            for coef, x in terms:
+                tot = tot + coef * SNum.lift(x).rv()
+            return SBool(tot == 0)
+        ats, const = [], 0
+        for coef, x in terms:
+            v = z3.simplify(SNum.lift(x).v)
+            if z3.is_int_value(v) or z3.is_rational_value(v):
+                const = const + coef * sym_value(v)
+                continue
+            at = None
+            for cand in CTX.atoms:
+                if cand.kind == "sum" and cand.const.get_id() == v.get_id():
+                    at = cand
+            if at is None and z3.is_app(v) and v.decl().kind() == z3.Z3_OP_TO_REAL:
+                for cand in CTX.atoms:
+                    if cand.kind == "sum" and cand.const.get_id() == v.arg(0).get_id():
+                        at = cand
+            if at is None:
+                raise Unsupported("lin_zero: %s is not a sum atom" % v)
+            ats.append((coef, at))
+        if not ats:
+            return SBool(const == 0)
+        axes = ats[0][1].axes
+        if any(len(a.axes) != len(axes) or any(x is not y for x, y in zip(a.axes, axes)) for _, a in ats):
+            raise Unsupported("lin_zero over different domains")
+        idx = tuple(ax.fresh_index("q") for ax in axes)
+        tot = z3.RealVal(0)
+        for coef, at in ats:
+            t = sym.toz(at.fn(idx), "real")
+            if z3.is_int(t):
+                t = z3.ToReal(t)
+            tot = tot + coef * t
+        return SBool(z3.And(z3.Implies(sym.rng(idx), tot == 0), z3.BoolVal(const == 0)))
+
+
+def sym_value(v):
+    if z3.is_int_value(v):
+        return v.as_long()
+    f = v.as_fraction()
+    return float(f.numerator) / float(f.denominator)
 
 
 def _zidx(j):
@@ -354,6 +421,7 @@ class ConcSpec(object):
             return _np.float64(x) ** (1.0 / 3)
     def abs(self, x): return abs(x)
     def to_num(self, b): return _np.float64(b)
+    def ln_rules(self, x, y): return None
 
     def at(self, a, i):
         if isinstance(a, _np.ma.MaskedArray):
@@ -394,6 +462,18 @@ class ConcSpec(object):
     def list_len(self, lst): return len(lst)
     def loop_items(self, lst): return list(enumerate(lst))
 
+    def count_where(self, arr, pred):
+        a = _np.asarray(arr)
+        return sum(1 for i in _np.ndindex(*a.shape) if bool(pred(i)))
+
+    def sum_where(self, arr, term):
+        a = _np.asarray(arr)
+        return float(sum(float(term(i)) for i in _np.ndindex(*a.shape)))
+
+    def lin_zero(self, terms):
+        tot = sum(coef * float(x) for coef, x in terms)
+        return abs(tot) <= 1e-9 * max(1.0, max(abs(float(x)) for _, x in terms))
+
 
 CONCRETE_FUNCTIONALS = {
     "median": lambda a, axis=None: _np.median(a, axis=axis),
@@ -427,6 +507,7 @@ class ObResult(object):
         self.replay = None          # dict: result of replaying the witness on the real code
         self.backends = {}
         self.canary = None
+        self.decls = []
 
     def to_json(self):
         return {
@@ -483,6 +564,106 @@ def second_solver(smt2_text, timeout_s=30):
         return "unknown", None
     finally:
         os.unlink(path)
+
+
+GRID_NUM = [0.0, 1.0, 2.0, 0.5, 3.0, -1.0]
+GRID_ARR = [0.0, 1.0, 2.0, -1.0]
+
+
+def enumerate_witness(o, decls, seed=0, budget=6000):
+    """concrete search for a failing input of the same contract on the REAL code: small grids of values for
+    every declared input (array extents 1..3), exhaustive while the grid is small, seeded-random beyond"""
+    import itertools
+    import random
+    rnd = random.Random(seed)
+    special = {NAN: float("nan"), PINF: float("inf"), NINF: float("-inf"), MASKED: "masked"}
+    tried = 0
+    for n in (1, 2, 3):
+        names, domains = [], []
+        sizes = {}
+        for kind, name, info in decls:
+            if kind == "axis":
+                sizes[name] = info["size"] if isinstance(info["size"], int) else n
+        for kind, name, info in decls:
+            if kind == "num":
+                vals = [v for v in GRID_NUM if FIN in info["kinds"]] + [special[k] for k in info["kinds"] if k != FIN]
+                if info["integer"]:
+                    vals = [int(v) for v in vals if isinstance(v, float) and v == int(v) and v == v and abs(v) != float("inf")]
+                names.append("num:" + name); domains.append(("scalar", vals))
+            elif kind == "bool":
+                names.append("bool:" + name); domains.append(("scalar", [False, True]))
+            elif kind == "choice":
+                names.append("choice:" + name); domains.append(("scalar", list(range(info["n"]))))
+            elif kind == "array":
+                shape = [sizes[a] for a in info["axes"]]
+                if info["dtype"] == "bool":
+                    vals = [False, True]
+                else:
+                    vals = [v for v in GRID_ARR if FIN in info["kinds"]] + [special[k] for k in info["kinds"] if k not in (FIN, MASKED)]
+                    if info["dtype"] == "int":
+                        vals = [0, 1, 2]
+                names.append("array:" + name); domains.append(("array", vals, shape))
+        total = 1
+        for d in domains:
+            cnt = len(d[1]) if d[0] == "scalar" else len(d[1]) ** max(1, int(_np.prod(d[2])))
+            total *= max(1, cnt)
+
+        def build(choice_fn):
+            vals = {}
+            for nm, d in zip(names, domains):
+                if d[0] == "scalar":
+                    vals[nm] = choice_fn(d[1])
+                else:
+                    k = int(_np.prod(d[2]))
+                    flat = [choice_fn(d[1]) for _ in range(k)]
+                    vals[nm] = _np.array(flat, dtype=object).reshape(d[2]).tolist()
+            return vals
+        if total <= budget // 3:
+            scal = []
+            for d in domains:
+                if d[0] == "scalar":
+                    scal.append(d[1])
+                else:
+                    k = int(_np.prod(d[2]))
+                    scal.append(list(itertools.product(d[1], repeat=k)))
+            cands = []
+            for combo in itertools.product(*scal):
+                vals = {}
+                for nm, d, c in zip(names, domains, combo):
+                    vals[nm] = c if d[0] == "scalar" else _np.array(list(c), dtype=object).reshape(d[2]).tolist()
+                cands.append(vals)
+        else:
+            cands = [build(lambda xs: rnd.choice(xs)) for _ in range(budget // 3)]
+        for vals in cands:
+            tried += 1
+            try:
+                rep = replay(o, vals)
+            except Exception:
+                continue
+            if rep.get("failed"):
+                return vals, rep, tried
+    return None
+
+
+def find_witness(o, timeout_ms=20000, sizes=(1, 2, 3)):
+    """a refutation whose model does not replay (sums are opaque atoms there): search for a genuine failing
+    input with concrete array extents 1, 2, 3 and the sums written out; returns (witness, replay) or None"""
+    for n in sizes:
+        CTX.unroll = n
+        try:
+            r = run_obligation(o, timeout_ms=timeout_ms, max_paths=2000)
+        except Exception:
+            r = None
+        finally:
+            CTX.unroll = 0
+        if r is not None and r.status == "refuted" and r.witness is not None:
+            try:
+                rep = replay(o, r.witness)
+            except Exception:
+                continue
+            if rep.get("failed"):
+                return r.witness, rep
+    return None
 
 
 def run_obligation(o, timeout_ms=20000, max_paths=4096, second=False):
@@ -571,6 +752,7 @@ def run_obligation(o, timeout_ms=20000, max_paths=4096, second=False):
     except Exception:
         res.status = "error"
         res.note += traceback.format_exc()
+    res.decls = list(holder["G"].decls) if "G" in holder else []
     res.solver_calls = E.solver_calls
     res.solver_seconds = E.solver_time
     res.seconds = time.time() - t0
